@@ -12,12 +12,15 @@ use keylife::{CAPS, DRIVERS, Weights, case, epilogue, exec_case, nontrivial, ran
 
 /// every way to get rid of one pending op × when the kernel / the harness makes it ready
 fn single_op_family(out: &mut Vec<Case>, rng: &mut Rng, caps: &[u32]) {
-    let kinds: [(&'static str, usize); 4] = [("rd", 0), ("acc", 4), ("zc", 6), ("blk", 0)];
+    let kinds: [(&'static str, usize); 4] = [("rd", 0), ("acc", 4), ("zc", 7), ("blk", 0)];
     let routes = ["cancel", "drop", "token", "ccancel", "keep"];
     // 0: nothing arrives; 1: ready before the first poll; 2: ready after the first poll
     for drv in DRIVERS {
         for &cap in caps {
             for (kind, slot) in kinds {
+                // a zero-copy send must not be submitted by the `push_raw` overflow loop: its notification CQE shows
+                // up a moment after the submit, the drain in the same call may or may not see it
+                let cap = if kind == "zc" && cap < 4 { 4 } else { cap };
                 for route in routes {
                     for timing in 0..3 {
                         for polled in [false, true] {
@@ -139,19 +142,21 @@ fn generate(tier: &str, rng: &mut Rng) -> Vec<Case> {
         single_op_family(&mut out, rng, &[2]);
     }
     let w = Weights { push: 10, ready: 8, poll: 10, flush: 3, pop: 6, popm: 3, cancel: 5, ccancel: 1, dropk: 4, token: 3, tcancel: 3, gate: 3, pdrop: 3 };
-    let n = if thorough { 40_000 } else { 1_000 };
+    let n = if thorough { 25_000 } else { 1_000 };
     for i in 0..n {
         let drv = *rng.pick(&DRIVERS);
         let cap = *rng.pick(&CAPS);
-        // a multishot accept is terminated by the kernel when the completion queue (2 x capacity entries)
-        // overflows: keep it away from the tiny rings
-        let small = drv == "iour" && cap < 4;
+        // Multishot accepts and zero-copy sends post CQEs a moment AFTER the submit (task work): whether the drain that
+        // follows a submit inside the same driver call (`push_raw` overflow loop in `push` / `flush`) sees them is a
+        // race, so in random programs they only run on the big ring, where that loop never runs. (A multishot accept
+        // is moreover terminated by the kernel when the completion queue, 2 x capacity entries, overflows.)
+        let multi_ok = drv == "poll" || cap == 1024;
         let kinds: &[&'static str] = match rng.below(4) {
             0 => &["rd"],
             1 => &["rd", "blk"],
-            2 if small => &["rd", "zc", "blk"],
+            2 if !multi_ok => &["rd", "blk", "blk"],
             2 => &["rd", "acc", "zc", "blk"],
-            _ if small => &["rd", "rd", "zc", "blk"],
+            _ if !multi_ok => &["rd", "rd", "blk"],
             _ => &["rd", "rd", "acc", "zc", "blk"],
         };
         let share = rng.chance(1, 2);
